@@ -143,7 +143,12 @@ func genReq(t *rapid.T, idx int) *ReqSpec {
 		}
 		for i := 0; i < rapid.IntRange(0, 2).Draw(t, "nFiles"); i++ {
 			n := rapid.SampledFrom([]int{0, 1, 100, 511, 512, 513, 2000, 5000}).Draw(t, "fileLen")
-			r.Files = append(r.Files, KV{K: fmt.Sprintf("file%d|name%d.bin", i, i), V: string(gen.Body(n, i, 9, 1))})
+			fname := fmt.Sprintf("name%d.bin", i)
+			if rapid.IntRange(0, 3).Draw(t, "hostileFileName") == 0 {
+				// a file name is an arbitrary string for the API; in the part header it is a quoted value
+				fname = rapid.SampledFrom([]string{`my "final" report.txt`, `back\slash.bin`, `semi;colon.txt`, `quote".txt`}).Draw(t, "fileName")
+			}
+			r.Files = append(r.Files, KV{K: fmt.Sprintf("file%d|%s", i, fname), V: string(gen.Body(n, i, 9, 1))})
 		}
 		if len(r.Form) == 0 && len(r.Files) == 0 {
 			r.Form = []KV{{K: "m0", V: "v"}}
@@ -405,6 +410,10 @@ type exchange struct {
 	Resp *wire.Resp `json:"response"`
 	Cuts []int      `json:"cuts"`
 	API  int        `json:"api"`
+	// SilentClose: the peer closes the connection after this exchange without having announced it
+	// (an idle keep-alive connection timing out on the server). The client finds out when it uses the
+	// pooled connection for the next exchange, and sends a request that is safe to repeat once more.
+	SilentClose bool `json:"silent_close_after,omitempty"`
 }
 
 type Case struct {
@@ -441,7 +450,7 @@ func checkCase(c *Case) string {
 		for i := cur; i < len(c.Ex); i++ {
 			b, _ := c.Ex[i].Resp.Encode(nil)
 			resps = append(resps, sconn.Split(b, c.Ex[i].Cuts))
-			if respCloses(c.Ex[i].Resp) {
+			if respCloses(c.Ex[i].Resp) || c.Ex[i].SilentClose {
 				break
 			}
 		}
@@ -474,10 +483,19 @@ func checkCase(c *Case) string {
 		for _, rc := range conns {
 			w := rc.Written()
 			if len(w) > consumed[rc] {
-				mine = w[consumed[rc]:]
+				mine = w[consumed[rc]:] // (connections are in dial order: the newest one wins)
 				consumed[rc] = len(w)
 				found++
 			}
+		}
+		staleConn := i > 0 && c.Ex[i-1].SilentClose && !respCloses(c.Ex[i-1].Resp)
+		if staleConn && found == 1 && o.Err != "" && len(conns) == dialsBefore {
+			continue // a request that is not safe to repeat fails on the dead pooled connection: allowed
+		}
+		if staleConn && found == 2 && len(conns) == dialsBefore+1 {
+			// written on the dead pooled connection, then once more on a new one: what the new
+			// connection carries is the request the server gets
+			found = 1
 		}
 		if found != 1 {
 			return fmt.Sprintf("%s: the request was written on %d connections (err=%q)", id, found, o.Err)
@@ -614,6 +632,7 @@ func genCase(t *rapid.T) *Case {
 		if len(ex.Cuts) > 64 {
 			ex.Cuts = ex.Cuts[:64]
 		}
+		ex.SilentClose = !respCloses(ex.Resp) && rapid.IntRange(0, 5).Draw(t, "silentCloseAfter") == 0
 		c.Ex = append(c.Ex, ex)
 	}
 	return c
@@ -634,6 +653,9 @@ func classify(c *Case) (bool, []string) {
 		cls = append(cls, "req-"+ex.Req.BodyMode, "resp-"+ex.Resp.Framing.String())
 		if ex.Req.URLForm != "" {
 			cls = append(cls, "url-"+ex.Req.URLForm)
+		}
+		if i > 0 && c.Ex[i-1].SilentClose {
+			cls = append(cls, "sent-on-a-pooled-connection-the-peer-had-closed")
 		}
 		if strings.HasPrefix(ex.Req.BodyMode, "stream") || ex.Req.BodyMode == "multipart" || ex.Resp.Framing == wire.FrChunked || ex.Resp.Framing == wire.FrUntilClose || i >= 1 || ex.Req.BodyLen >= 4096 || ex.Resp.BodyLen >= 4096 {
 			nt = true
